@@ -57,6 +57,14 @@ def eval_scaling(case):
         k = int(np.argmax(np.abs(joint - got)))
         viol.append(V("joint-rescale", f"rescaling time and tau together by {s} changes the forecast at index {k}: "
                       f"{joint[k]!r} vs {got[k]!r}", case=case, observed=float(joint[k]), expected=float(got[k])))
+    fc.M_, fc.tau_ = 7.0 * M, 0.5 * tau  # fitted values that differ from the explicit arguments
+    zero = np.asarray(fc.forecast_cum(t, 0.0, tau), dtype=float)
+    if not np.all(zero == 0):
+        viol.append(V("linear-in-M/zero", f"forecast_cum(t, M=0, tau) is not zero (max {np.abs(zero).max()!r}): an "
+                      "explicit zero must not fall back to the fitted M_", case=case))
+    expl = np.asarray(fc.forecast_cum(t, M, tau), dtype=float)
+    if not np.array_equal(expl, got):
+        viol.append(V("explicit-arguments-win", "explicit M, tau are overridden by fitted M_/tau_", case=case))
     fc.M_, fc.tau_ = M, tau
     dflt = np.asarray(fc.forecast_cum(t), dtype=float)
     if not np.array_equal(dflt, got):
